@@ -483,8 +483,21 @@ func makeOptionalPtrDecoder(typ reflect.Type) (decoder, error) {
 	if err != nil {
 		return nil, err
 	}
+	// A nil pointer has ONE encoding, the one the encoder writes for this type (empty string for
+	// byte arrays/slices, integers, strings; empty list for structs and other arrays/slices).
+	// Accepting either kind gave every value with an optional field two encodings.
+	nilKind := String
+	switch k := etype.Kind(); {
+	case etype == bigInt:
+	case (k == reflect.Array || k == reflect.Slice) && isByte(etype.Elem()):
+	case k == reflect.Struct || k == reflect.Array || k == reflect.Slice:
+		nilKind = List
+	}
 	dec := func(s *Stream, val reflect.Value) (err error) {
 		kind, size, err := s.Kind()
+		if err == nil && size == 0 && kind != Byte && kind != nilKind {
+			return &decodeError{msg: "wrong kind of empty value (got " + kind.String() + ", want " + nilKind.String() + ")", typ: typ}
+		}
 		if err != nil || size == 0 && kind != Byte {
 			// rearm s.Kind. This is important because the input
 			// position must advance to the next value even though
